@@ -80,6 +80,10 @@ def hmc_doc(dense, adaptors, steps=4, step_size=0.15):
             hop["adaptors"].append({"id": "ad.step", "type": "AdaptiveStepSize", "integrator": "leapfrog"})
         elif a == "stepsize-rate":
             hop["adaptors"].append({"id": "ad.step", "type": "AdaptiveStepSize", "integrator": "leapfrog", "use_acceptance_rate": True})
+        elif a == "stepsize-rate-late":
+            hop["adaptors"].append({"id": "ad.step", "type": "AdaptiveStepSize", "integrator": "leapfrog", "use_acceptance_rate": True, "start": 25})
+        elif a == "dual-closed":      # the adaptation window closes early: afterwards the run uses the averaged step size
+            hop["adaptors"].append({"id": "ad.dual", "type": "DualAveragingStepSize", "integrator": "leapfrog", "end": 5})
         elif a == "dual":
             hop["adaptors"].append({"id": "ad.dual", "type": "DualAveragingStepSize", "integrator": "leapfrog"})
         elif a == "mass":
@@ -115,9 +119,14 @@ def chains(tier):
     out.append(("hmc-diag", hmc_doc(False, []), 40))
     out.append(("hmc-dense-stepsize-mass", hmc_doc(True, ["stepsize", "mass"]), 40))
     out.append(("hmc-diag-dual-mass", hmc_doc(False, ["dual", "mass"]), 40))
+    out.append(("hmc-diag-rate-late-start", hmc_doc(False, ["stepsize-rate-late"]), 70))
     ev = zoo.evo_args("t4.fa", "t4.nwk")
     out.append(("cli-mcmc-skygrid", ("cli", ["mcmc"] + ev + ["-m", "HKY", "--clock", "strict", "--coalescent", "skygrid", "--grid", "3",
                                                               "--cutoff", "5", "--stem", "x"]), 40))
+    # the block operator starting from scaler = 1 (it tunes itself above 1 and then also proposes the precision)
+    out.append(("cli-mcmc-skygrid-scaler1", ("cli", ["mcmc"] + ev + ["-m", "JC69", "--clock", "strict", "--coalescent", "skygrid", "--grid", "3",
+                                                                      "--cutoff", "5", "--stem", "x"],
+                                             {"GMRFPiecewiseCoalescentBlockUpdatingOperator": {"scaler": 1.0, "weight": 25.0}}), 160))
     if tier == "thorough":
         out.append(("hmc-diag-rate", hmc_doc(False, ["stepsize-rate"]), 80))
         out.append(("cli-hmc-constant", ("cli", ["hmc"] + ev + ["-m", "JC69", "--clock", "strict", "--coalescent", "constant", "--stem", "x"]), 30))
@@ -163,14 +172,27 @@ def judged_stepwise(o):
     if o._disable_adaptation:
         return False
     if type(o).__name__ == "HMCOperator" and o._adaptors:
-        return all(type(a).__name__ in ("AdaptiveStepSize", "MassMatrixAdaptor") for a in o._adaptors) and \
-            not any(getattr(a, "_acceptance_rate", False) for a in o._adaptors)
+        return all(type(a).__name__ in ("AdaptiveStepSize", "MassMatrixAdaptor") for a in o._adaptors)
     return True
+
+
+def rate_mode(o):
+    """(start, end) of an AdaptiveStepSize adaptor driven by the running acceptance RATE, else None."""
+    if type(o).__name__ == "HMCOperator":
+        for a in o._adaptors:
+            if type(a).__name__ == "AdaptiveStepSize" and getattr(a, "_acceptance_rate", False):
+                return (a._start, a._end)
+    return None
 
 
 def prepare(doc_or_cli, iterations, workdir):
     if isinstance(doc_or_cli, tuple):
         doc = zoo.cli_json(doc_or_cli[1])
+        if len(doc_or_cli) > 2:          # overrides per operator type: {type: {key: value}}
+            for e in doc:
+                if isinstance(e, dict) and e.get("type") == "MCMC":
+                    for o in e["operators"]:
+                        o.update(doc_or_cli[2].get(o.get("type"), {}))
     else:
         doc = copy.deepcopy(doc_or_cli)
     m = next(e for e in doc if isinstance(e, dict) and e.get("type") == "MCMC")
@@ -278,7 +300,7 @@ def run_chain(name, doc_or_cli, iterations, seed, workdir):
                 otune(acceptance_prob, sample=sample, accepted=accepted)
                 rec = dict(cur)
                 rec.update(bold_after=boldness(o), target_acc=o.target_acceptance_probability,
-                           judge=judged_stepwise(o), optype=type(o).__name__, opid=o.id)
+                           judge=judged_stepwise(o), optype=type(o).__name__, opid=o.id, rate_mode=rate_mode(o))
                 recs.append(rec)
             o.tune = tune
         import contextlib
@@ -415,6 +437,7 @@ def build_records(run):
     brank = {b: i for i, b in enumerate(bolds)}
     recs = []
     detail = []
+    tallies = {}
     for k in range(n):
         d, t, w = dec[k], tun[k], run["recs"][k]
         hast = d["hastings"]
@@ -439,6 +462,18 @@ def build_records(run):
             acc = math.exp(min(0.0, (tp - tb) + hh))
         acc_ok = abs(acc - d["acceptance_prob"]) <= 1e-8
         rel = "above" if acc > w["target_acc"] + 1e-12 else ("below" if acc < w["target_acc"] - 1e-12 else "equal")
+        if w.get("rate_mode"):
+            # tuned on the running acceptance rate: an independent tally of this operator's decisions (documented window:
+            # start <= calls <= end, and at least 10 calls); outside the window the step size must not be judged
+            tally = tallies.setdefault(w["opid"], [0, 0])
+            tally[0] += 1
+            tally[1] += 1 if d["accepted"] else 0
+            st, en = w["rate_mode"]
+            if st <= tally[0] <= en and tally[0] >= 10:
+                r_ = tally[1] / tally[0]
+                rel = "above" if r_ > w["target_acc"] + 1e-12 else ("below" if r_ < w["target_acc"] - 1e-12 else "equal")
+            else:
+                rel = "equal"
         row = rows.get(d["iteration"])
         logged = row is not None
         if logged:
@@ -548,7 +583,7 @@ def run(ctx: Ctx):
     logging.disable(logging.CRITICAL)
     work = tempfile.mkdtemp(prefix="c15-", dir=tlc.workdir("c15w"))
     ctx.assumptions += [
-        "dual-averaging step-size adaptation and the running-rate variant are not judged step by step (DESIGN C15); mass-matrix adaptation is not a proposal-scale direction",
+        "dual-averaging step-size adaptation is not judged step by step (DESIGN C15); the running-rate variant is judged against an independent tally of the decisions; mass-matrix adaptation is not a proposal-scale direction",
         "the GMRF block-update Hastings ratio is not recomputed independently (its precision proposal is symmetric; the Gaussian part is left to C20's quantities)",
         "density ids: floats within relative 1e-9 are identified",
     ]
